@@ -72,7 +72,7 @@ class XListSpec(SeqSpec):
         return ops
 
     def gen(self, rng, tier, scale):
-        n = int((900 if tier == "quick" else 25000) * scale)
+        n = int((900 if tier == "quick" else 9000) * scale)
         # inst: the element type the history is run on (int; any holding nil / uncomparable values; float64 with NaN)
         return [{"component": "xlist", "ops": self.gen_one(rng, rng.choice([3, 8, 20, 50, 100] if tier == "quick" else [5, 20, 60, 150, 300])),
                  "cfg": {"inst": rng.choice(["int", "int", "any", "float"])}}
